@@ -48,6 +48,10 @@ theorem requestStatus_ext (req) : Rel extPre (requestStatus req) := by
   unfold requestStatus
   ext_walk []
 
+theorem failOnError_ext : Rel extPre failOnError := by
+  unfold failOnError
+  ext_walk [requestStatus_ext _]
+
 theorem getTask_ext (k) : Rel extPre (getTask E k) := by
   unfold getTask
   ext_walk []
@@ -62,14 +66,14 @@ theorem nextTaskFor_ext (sx) : Rel extPre (nextTaskFor E sx) := by
 
 theorem nextFrom_ext (todo) : Rel extPre (nextFrom E todo) := by
   unfold nextFrom
-  ext_walk [nextTaskFor_ext E _, requestStatus_ext _]
+  ext_walk [nextTaskFor_ext E _, requestStatus_ext _, failOnError_ext]
 
 theorem getNextTasks_ext : Rel extPre (getNextTasks E) :=
   ⟨fun c => (nextFrom_ext E (nextTodo c.st)).run c⟩
 
 theorem addTaskState_ext (k a b) : Rel extPre (addTaskState E k a b) := by
   unfold addTaskState
-  ext_walk [requestStatus_ext _]
+  ext_walk [requestStatus_ext _, failOnError_ext]
 
 theorem evaluateRoute_ext (e r) : Rel extPre (evaluateRoute e r) := by
   unfold evaluateRoute
@@ -81,11 +85,11 @@ theorem stageNext_ext (k idx e o acc) : Rel extPre (stageNext k idx e o acc) := 
 
 theorem fireTransition_ext (k idx ec acc e) : Rel extPre (fireTransition E k idx ec acc e) := by
   unfold fireTransition
-  ext_walk [requestStatus_ext _, stageNext_ext _ _ _ _ _]
+  ext_walk [requestStatus_ext _, failOnError_ext, stageNext_ext _ _ _ _ _]
 
 theorem processTransition_ext (k idx ec acc e) : Rel extPre (processTransition E k idx ec acc e) := by
   unfold processTransition
-  ext_walk [requestStatus_ext _, fireTransition_ext E _ _ _ _ _]
+  ext_walk [requestStatus_ext _, failOnError_ext, fireTransition_ext E _ _ _ _ _]
 
 theorem makeTaskContext_ext (k idx r) : Rel extPre (makeTaskContext k idx r) := by
   unfold makeTaskContext
@@ -103,9 +107,9 @@ theorem restageRetry_ext (k idx o) : Rel extPre (restageRetry k idx o) := by
   unfold restageRetry
   ext_walk []
 
-theorem completedRetryDecision_ext (k idx ts ns ev) : Rel extPre (completedRetryDecision E k idx ts ns ev) := by
+theorem completedRetryDecision_ext (k idx ts os ns ev) : Rel extPre (completedRetryDecision E k idx ts os ns ev) := by
   unfold completedRetryDecision
-  ext_walk [makeTaskContext_ext _ _ _, requestStatus_ext _]
+  ext_walk [makeTaskContext_ext _ _ _, requestStatus_ext _, failOnError_ext]
 
 theorem evalTransitions_ext (k idx ts ev) : Rel extPre (evalTransitions E k idx ts ev) := by
   unfold evalTransitions
@@ -126,7 +130,7 @@ theorem updateHead_ext (k ev) : Rel extPre (updateHead E k ev) := by
 theorem updateTail_ext (recur : TaskKey → Event → M Unit) (hrec : ∀ k ev, Rel extPre (recur k ev))
     (k ev h) : Rel extPre (updateTail E recur k ev h) := by
   unfold updateTail updateRest
-  ext_walk [hrec _ _, completedRetryDecision_ext E _ _ _ _ _, evalTransitions_ext E _ _ _ _, markTermIfCompleted_ext _]
+  ext_walk [hrec _ _, completedRetryDecision_ext E _ _ _ _ _ _, evalTransitions_ext E _ _ _ _, markTermIfCompleted_ext _]
 
 theorem updateTaskStateAux_ext (fuel k ev) : Rel extPre (updateTaskStateAux E fuel k ev) := by
   induction fuel generalizing k ev with
@@ -143,7 +147,7 @@ theorem terminalContext_ext : Rel extPre terminalContext := by
 
 theorem renderOutput_ext : Rel extPre (renderOutput E) := by
   unfold renderOutput
-  ext_walk [terminalContext_ext, requestStatus_ext _]
+  ext_walk [terminalContext_ext, requestStatus_ext _, failOnError_ext]
 
 theorem requestTaskRerun_ext (k r) : Rel extPre (requestTaskRerun E k r) := by
   unfold requestTaskRerun
